@@ -133,7 +133,7 @@ def run_tlc(module, cfg, env, wd, workers=8, timeout=1500, heap="4g", simulate=N
         m = re.match(r"^(\d+) states generated, (\d+) distinct states found", line)
         if m:
             res["states"], res["distinct"] = int(m.group(1)), int(m.group(2))
-    ok = ("Model checking completed. No error has been found." in out) or (simulate and "Progress" in out and p.returncode in (0,))
+    ok = ("Model checking completed. No error has been found." in out) or (simulate and p.returncode == 0 and "Error:" not in out)
     if not ok:
         ls = [l for l in out.splitlines() if not l.startswith("<<") and not l.startswith("Loading ")]
         first = next((i for i, l in enumerate(ls) if l.startswith("Error")), max(0, len(ls) - 40))
@@ -270,7 +270,7 @@ class Run:
             for (view, clause), vs in sorted(seen.items()):
                 vs.sort(key=lambda v: len(json.dumps(v["replay"])))
                 n += 1
-                path = os.path.join(REPLAYS, "%s-%d-%s-%s.json" % (self.prop, n, view, re.sub(r"[^A-Za-z0-9]+", "_", clause)))
+                path = os.path.join(REPLAYS, "%s-%d-%s-%s.json" % (self.prop, n, re.sub(r"[^A-Za-z0-9()+,]+", "_", view), re.sub(r"[^A-Za-z0-9]+", "_", clause)))
                 obj = dict(vs[0]["replay"])
                 obj.update({"property": self.prop, "view": view, "clause": clause, "detail": vs[0]["detail"],
                             "violating_observations_in_this_class": len(vs),
@@ -306,7 +306,7 @@ def kind_of(cfg):
 
 
 def p1_job(run, name, module, scope, profile="dev", workers=5, timeout=1500, nontrivial_keys=("def.q", "def.f", "def.f2", "def.sq", "def.hold", "def.n"),
-           view_label=None, extra_env=None, scope2=None):
+           view_label=None, extra_env=None, scope2=None, cfgfile="MC.cfg", cfg_fraction=1):
     """Pipeline P1: dump the implementation's behaviour tree for `scope`, model-check `module` against it."""
     wd = run.wd
     sp = os.path.join(wd, name + ".scope.json")
@@ -325,9 +325,9 @@ def p1_job(run, name, module, scope, profile="dev", workers=5, timeout=1500, non
         env["TABLE2"] = tb2
     if extra_env:
         env.update(extra_env)
-    res = run_tlc(module, "MC.cfg", env, wd, workers=workers, timeout=timeout)
+    res = run_tlc(module, cfgfile, env, wd, workers=workers, timeout=timeout)
     a = len(scope["alphabet"])
-    ncells = len(scope["cfgs"]) * sum(a ** l for l in range(scope["maxlen"] + 1))
+    ncells = (len(scope["cfgs"]) // cfg_fraction) * sum(a ** l for l in range(scope["maxlen"] + 1))
     if res["distinct"] != ncells:
         raise ToolError("%s: TLC explored %d states, the scope has %d cells" % (name, res["distinct"], ncells))
     tally = res["tally"]
@@ -401,3 +401,153 @@ def pair_job(run, name, scope, workers=8, timeout=1500):
     if len(run.samples) < 12:
         run.samples.append({"job": name, "cfg": scope["cfgs"][0], "x": [1, 0, -1][:scope["maxlen"]], "y": [0, 1, 1][:scope["maxlen"]], "combo": scope["combos"][0]})
     return res
+
+
+PROG_RE = re.compile(r'^<<"PROG", (".*")>>\s*$')
+
+
+def p2_job(run, name, scope, prop, num=1000, exhaustive=False, profile="dev", workers=4, timeout=1200, gen="SF"):
+    """Pipeline P2: TLC generates behaviours of SF.tla, the harness replays them on the real crate,
+    Trace_SF.tla validates the recorded answers."""
+    wd = run.wd
+    sp = os.path.join(wd, name + ".scope.json")
+    json.dump(scope, open(sp, "w"))
+    sim = None if exhaustive else "num=%d" % num
+    extra = None if exhaustive else ["-depth", str(scope["depth"] + 1), "-seed", str(run.seed + 7)]
+    genmod = gen
+    gen = run_tlc(genmod, genmod + ".cfg", {"SCOPE": sp}, wd, workers=(workers if exhaustive else 1), timeout=timeout, simulate=sim, extra=extra)
+    progs = []
+    seen = set()
+    for line in gen["out"].splitlines():
+        m = PROG_RE.match(line)
+        if m:
+            js = json.loads(m.group(1))
+            if js not in seen:
+                seen.add(js)
+                progs.append(json.loads(js))
+    if not progs:
+        raise ToolError("%s: TLC generated no behaviour" % name)
+    inp = os.path.join(wd, name + ".progs.ndjson")
+    outp = os.path.join(wd, name + ".trace.ndjson")
+    with open(inp, "w") as f:
+        for i, pr in enumerate(progs):
+            f.write(json.dumps({"id": i + 1, "unit": scope.get("unit", 1), "slots": scope["slots"], "float": scope.get("float", "f64"), "prog": pr}) + "\n")
+    harness("run", inp, outp, profile)
+    res = run_tlc("Trace_SF", "Trace.cfg", {"TRACE": outp, "PROP": prop}, wd, workers=1, timeout=timeout, dfs=True)
+    if res["tally"].get("programs") != len(progs):
+        raise ToolError("%s: %s programs judged, %d recorded" % (name, res["tally"].get("programs"), len(progs)))
+    answers = sum(int(k.split(".")[1]) * v for k, v in res["tally"].items() if k.startswith("answers."))
+    with run.lock:
+        run.states += res["distinct"] + gen["distinct"]
+        run.transitions += res["states"] + gen["states"]
+        run.traces += len(progs)
+        run.evaluations += len(progs)
+        run.nontrivial += sum(v for k, v in res["tally"].items() if k.startswith("answers.") and int(k.split(".")[1]) >= 2)
+        run.exhaustive = run.exhaustive and exhaustive
+        run.jobs.append({"name": name, "pipeline": "P2", "generator": genmod + ".tla " + ("exhaustive depth %d" % scope["depth"] if exhaustive else "-simulate num=%d -depth %d" % (num, scope["depth"])),
+                         "validator": "Trace_SF.tla", "profile": profile, "programs": len(progs), "operations": sum(len(p) for p in progs),
+                         "answers_judged": answers, "cfgs": len(scope["cfgs"]), "inputs": scope["inputs"], "tlc_s": round(res["wall"] + gen["wall"], 2)})
+        for v in res["viol"]:
+            _, clause, line = v
+            pr = progs[line - 1]
+            kinds = sorted({op[2].get("k", "?") for op in pr if op[0] == "new"})
+            detail = {"program": pr, "unit": scope.get("unit", 1)}
+            replay = {"kind": "p2", "prog": pr, "unit": scope.get("unit", 1), "slots": scope["slots"], "profile": profile, "prop": prop}
+            run.add_violation("+".join(kinds), clause, None, detail, replay)
+        if len(run.samples) < 12:
+            run.samples.append({"job": name, "program": progs[len(progs) // 2]})
+    return res
+
+
+def p3_stream_job(run, name, prop, streams, profile="dev", timeout=2400, heap="6g"):
+    """Pipeline P3: record the real view on the given input streams, validate the trace with Trace_Stream.tla.
+    streams: dicts with cfg, unit, mode, eps, float, xs (ints), k (sampling period of the recorded answers)."""
+    wd = run.wd
+    inp = os.path.join(wd, name + ".progs.ndjson")
+    outp = os.path.join(wd, name + ".rec.ndjson")
+    trace = os.path.join(wd, name + ".trace.ndjson")
+    with open(inp, "w") as f:
+        for i, st in enumerate(streams):
+            k = st.get("k", 1)
+            op = ["us", 0, st["xs"]] if k == 1 else ["uss", 0, st["xs"], k]
+            f.write(json.dumps({"id": i + 1, "unit": st["unit"], "float": st.get("float", "f64"), "slots": 1, "prog": [["new", 0, st["cfg"]], op]}) + "\n")
+    harness("run", inp, outp, profile)
+    nlines = 0
+    index = []   # trace line -> (stream, inputs consumed)
+    with open(trace, "w") as f:
+        for st, line in zip(streams, open(outp)):
+            r = json.loads(line)
+            if r["res"][0] != "ok":
+                raise ToolError("%s: constructor refused %s" % (name, st["cfg"]))
+            obs = r["res"][1]
+            k = st.get("k", 1)
+            f.write(json.dumps({"cfg": st["cfg"], "unit": st["unit"], "mode": st["mode"], "eps": st["eps"], "float": st.get("float", "f64")}) + "\n")
+            nlines += 1
+            for j, o in enumerate(obs):
+                f.write(json.dumps({"xs": st["xs"][j * k:(j + 1) * k], "o": o}) + "\n")
+                nlines += 1
+    res = run_tlc("Trace_Stream", "TraceS.cfg", {"TRACE": trace, "PROP": prop}, wd, workers=1, timeout=timeout, heap=heap, dfs=True)
+    events = res["tally"].get("events", 0)
+    if events != nlines - len(streams):
+        raise ToolError("%s: %d events judged, %d recorded" % (name, events, nlines - len(streams)))
+    with run.lock:
+        run.states += res["distinct"]
+        run.transitions += res["states"]
+        run.traces += len(streams)
+        run.evaluations += events
+        run.nontrivial += sum(v for k2, v in res["tally"].items() if k2.startswith("def.") and k2 not in ("def.any",))
+        run.exhaustive = False
+        run.jobs.append({"name": name, "pipeline": "P3", "validator": "Trace_Stream.tla", "profile": profile, "streams": len(streams),
+                         "inputs": sum(len(st["xs"]) for st in streams), "events_judged": events, "tally": {k2: v for k2, v in res["tally"].items() if not k2.startswith("print.")},
+                         "tlc_s": round(res["wall"], 2)})
+        for v in res["viol"]:
+            _, clause, sid, line, cnt = v
+            st = streams[sid - 1]
+            detail = {"cfg": st["cfg"], "unit": st["unit"], "float": st.get("float", "f64"), "inputs_consumed": cnt, "eps": st["eps"],
+                      "last_inputs": st["xs"][max(0, cnt - 12):cnt]}
+            replay = {"kind": "p3", "prop": prop, "stream": {k2: v2 for k2, v2 in st.items() if k2 != "xs"}, "xs": st["xs"][:cnt], "profile": profile}
+            run.add_violation(kind_of(st["cfg"]) + ("/f32" if st.get("float") == "f32" else ""), clause, st["cfg"], detail, replay)
+        if len(run.samples) < 12 and streams:
+            st = streams[0]
+            run.samples.append({"job": name, "cfg": st["cfg"], "unit": st["unit"], "float": st.get("float", "f64"), "first_inputs": st["xs"][:16], "length": len(st["xs"])})
+    return res
+
+
+def exp_job(run, name, prop, lines, nontrivial_key, timeout=1200, describe=None):
+    """Pipeline P3, one experiment per trace line, judged by Trace_Exp.tla.  `lines` are the recorded experiments."""
+    wd = run.wd
+    trace = os.path.join(wd, name + ".trace.ndjson")
+    with open(trace, "w") as f:
+        for ln in lines:
+            f.write(json.dumps(ln) + "\n")
+    res = run_tlc("Trace_Exp", "Trace.cfg", {"TRACE": trace, "PROP": prop}, wd, workers=1, timeout=timeout, dfs=True)
+    if res["tally"].get("lines") != len(lines):
+        raise ToolError("%s: %s lines judged, %d recorded" % (name, res["tally"].get("lines"), len(lines)))
+    with run.lock:
+        run.states += res["distinct"]; run.transitions += res["states"]
+        run.traces += len(lines); run.evaluations += len(lines)
+        run.nontrivial += res["tally"].get(nontrivial_key, 0)
+        run.exhaustive = False
+        run.jobs.append({"name": name, "pipeline": "P3", "validator": "Trace_Exp.tla", "experiments": len(lines),
+                         "tally": {k: v for k, v in res["tally"].items() if not k.startswith("print.")}, "tlc_s": round(res["wall"], 2)})
+        for v in res["viol"]:
+            _, clause, line = v
+            e = lines[line - 1]
+            detail = describe(e) if describe else {"cfg": e.get("cfg")}
+            replay = {"kind": "exp", "prop": prop, "experiment": {k: v2 for k, v2 in e.items() if k not in ("oa", "ob")}}
+            run.add_violation(kind_of(e["cfg"]), clause, e["cfg"], detail, replay)
+        if len(run.samples) < 12 and lines:
+            run.samples.append({"job": name, "experiment": {k: (v2 if not isinstance(v2, list) or len(v2) < 12 else v2[:8] + ["..."]) for k, v2 in lines[0].items() if k not in ("oa", "ob")}})
+    return res
+
+
+def record(run, name, progs, profile="dev", mode="run"):
+    """run programs / memory experiments on the real crate; returns the parsed output lines"""
+    wd = run.wd
+    inp = os.path.join(wd, name + ".in.ndjson")
+    outp = os.path.join(wd, name + ".out.ndjson")
+    with open(inp, "w") as f:
+        for p in progs:
+            f.write(json.dumps(p) + "\n")
+    harness(mode, inp, outp, profile)
+    return [json.loads(l) for l in open(outp)]
